@@ -209,7 +209,7 @@ struct ShardOut {
     failure: Option<(Value, Violation)>,
 }
 
-fn run_shard(prop: &dyn Prop, dom: &dyn Domain, tier: Tier, seed: u64, shard: u64, cases: u32, excl: &Exclusions, stop: &AtomicBool) -> ShardOut {
+fn run_shard(prop: &dyn Prop, dom: &dyn Domain, tier: Tier, seed: u64, shard: u64, cases: u32, excl: &Exclusions, _stop: &AtomicBool) -> ShardOut {
     let out = Mutex::new(ShardOut::default());
     let failed = AtomicBool::new(false);
     let cfg = Config {
@@ -647,6 +647,9 @@ pub fn triage(prop: &dyn Prop, seed: u64, n: u32) {
     use proptest::strategy::ValueTree;
     let excl = Exclusions::default();
     for dom in prop.domains() {
+        if dom.cases(Tier::Quick) == 0 {
+            continue;
+        }
         let cfg = Config {
             cases: n,
             failure_persistence: None,
